@@ -22,7 +22,7 @@ RULE = ('Each case = a recording (length 1..80, 1-5 channels, int16/float32/floa
         '.cbin, chunk size from {1,2,3,5,n-1,n,>n} obtained through the public sample_rate / chunk_duration, '
         'cache on/off, 1-3 decoder threads) x a sorted spike vector of dtype int64/int32/uint32/uint64 that '
         'always contains 0, n-1, every sample within n//2 of both ends and every chunk/file boundary b and '
-        'b-1 (duplicates allowed) x window length 1..9 or longer than the recording x channel lists (one '
+        'b-1 (duplicates allowed; one case in 120 holds > 2300 spikes in a single chunk) x window length 1..9 or longer than the recording x channel lists (one '
         'list/array for all spikes; per-spike rows; with and without -1) x factor {1,2,1.0,0.5,2.5}. Four '
         'routes are compared with the reference window computed from the bytes the harness wrote: '
         'extract_waveforms, np.load of the export_waveforms file, get_spike_waveforms on that store '
@@ -82,6 +82,10 @@ def gen_raw(seed):
     threads = int(rng.integers(1, 4))
     cache = bool(rng.integers(0, 2))
     nsw = int(rng.integers(1, 10)) if rng.random() < 0.9 else n + int(rng.integers(1, 4))
+    many = seed[-1] % 120 == 7 and n >= 20        # size threshold: well over 1000 spikes inside one chunk
+    if many:
+        chunk = n + 7
+        parts = [n]
     # boundaries
     if be == 'cbin':
         bounds = list(range(0, n, chunk)) + [n]
@@ -102,7 +106,7 @@ def gen_raw(seed):
     must = sorted(must)
     if len(must) > 14:
         must = sorted(set(rng.choice(must, size=14, replace=False).tolist()) | {0, n - 1})
-    extra = rng.integers(0, n, size=int(rng.integers(0, 6))).tolist()
+    extra = rng.integers(0, n, size=int(rng.integers(0, 6)) if not many else 2300).tolist()
     samples = np.sort(np.array(must + extra)).astype(SDT[int(rng.integers(0, 4))])
     ns = len(samples)
     nloc = int(rng.integers(1, nc + 2))
@@ -173,14 +177,22 @@ def _raw(case, ctx, d):
     # ---- route (a): direct extraction, one channel list for all spikes --------------------------
     common = np.array(g['common']) if g['common_as_array'] else list(g['common'])
     exp = windows(A, samples, nsw, [g['common']] * len(samples))
-    r = call(extract_waveforms, rd, samples, common, n_samples_waveforms=nsw)
     fa = dict(feats, route='extract', channels='array' if g['common_as_array'] else 'list', minus1=-1 in g['common'])
-    if not r.ok:
-        ctx.violation('route_raised', desc, 'extract_waveforms raised %r' % r.exc, dict(fa, exc=r.exc_name), tb=r.tb)
-    else:
+    samples0 = samples.copy()
+    for attempt in (1, 2):          # the second call reuses the very same channel / sample objects
+        r = call(extract_waveforms, rd, samples, common, n_samples_waveforms=nsw)
+        if not r.ok:
+            ctx.violation('route_raised', desc, 'extract_waveforms (call %d) raised %r' % (attempt, r.exc),
+                          dict(fa, exc=r.exc_name, call=attempt), tb=r.tb)
+            break
         dd = same(r.value, exp)
         if dd:
-            ctx.violation('window_mismatch', desc, 'extract_waveforms: ' + dd, fa)
+            ctx.violation('window_mismatch', desc, 'extract_waveforms (call %d on the same arguments): %s' % (attempt, dd),
+                          dict(fa, call=attempt))
+            break
+        if list(np.asarray(common).tolist()) != list(g['common']) or not np.array_equal(samples, samples0):
+            ctx.violation('inputs_modified', desc, 'extract_waveforms modified the channel / sample arrays of the caller', fa)
+            break
     # ---- route (b): chunk-by-chunk export ---------------------------------------------------------
     path = os.path.join(d, 'wf.npy')
     factor = g['factor']
